@@ -651,6 +651,39 @@ func (s *Sim) Drain() {
 	panic("sim: drain did not terminate")
 }
 
+// RunTaskWithFault runs one reconcile alone; its first call accepted by match gets the fault
+// (reject, lost, crash-before, crash-after). Reports whether the fault fired.
+func (s *Sim) RunTaskWithFault(ctrl string, key types.NamespacedName, kind string, match func(*Call) bool) (*Task, bool) {
+	t := s.StartReconcile(ctrl, key)
+	fired := false
+	for i := 0; i < 100000; i++ {
+		synctest.Wait()
+		s.collectFinished()
+		p := s.canonicalPending()
+		if len(p) == 0 {
+			return t, fired
+		}
+		c := p[0]
+		if !fired && c.Task == t && match(c) {
+			fired = true
+			s.Stats.Faults["targeted-"+kind]++
+			s.logf("targeted fault %s at %s", kind, c.Desc())
+			switch kind {
+			case "crash-before":
+				s.Crash()
+			case "crash-after":
+				s.grant(c, "")
+				s.Crash()
+			default:
+				s.grant(c, kind)
+			}
+			continue
+		}
+		s.grant(c, "")
+	}
+	panic("sim: RunTaskWithFault did not terminate")
+}
+
 // RunTask runs one reconcile to completion with no interleaving and no faults.
 func (s *Sim) RunTask(ctrl string, key types.NamespacedName) *Task {
 	t := s.StartReconcile(ctrl, key)
